@@ -243,8 +243,16 @@ func (ab *dsAddrBook) loadRecord(id peer.ID, cache bool, update bool) (pr *addrs
 		pr.Lock()
 		defer pr.Unlock()
 
-		if pr.clean(ab.clock.Now()) && update {
-			err = pr.flush(ab.ds)
+		if pr.clean(ab.clock.Now()) {
+			if update {
+				err = pr.flush(ab.ds)
+			} else {
+				// The cached record no longer matches what is stored. Remember
+				// that, so that the next write or GC run flushes it; otherwise
+				// GC sees a clean record without expired entries and leaves the
+				// expired ones in the datastore.
+				pr.dirty = true
+			}
 		}
 		return pr, err
 	}
@@ -262,8 +270,12 @@ func (ab *dsAddrBook) loadRecord(id peer.ID, cache bool, update bool) (pr *addrs
 			return nil, err
 		}
 		// this record is new and local for now (not in cache), so we don't need to lock.
-		if pr.clean(ab.clock.Now()) && update {
-			err = pr.flush(ab.ds)
+		if pr.clean(ab.clock.Now()) {
+			if update {
+				err = pr.flush(ab.ds)
+			} else {
+				pr.dirty = true
+			}
 		}
 	default:
 		return nil, err
